@@ -461,7 +461,17 @@ def mon_layout(case, res, rng=None):
     lay, rt, elt = case["layout"], case["rt"], case.get("elt", 8)
     out = []
     if _out_of_domain(lay):
+        # counted, not judged (e.g. a step of 0 prints as `?` and re-parses as a dynamic step)
         R.bump(res, "out_of_domain_layouts")
+        if any(s == 0 for d in lay["dims"] for _, s in d):
+            scratch = R.new_result()
+            try:
+                if view_text(lay, scratch, case):
+                    R.bump(res, "out_of_domain:zero_step_text_form_not_equal_after_reparse")
+                else:
+                    R.bump(res, "out_of_domain:zero_step_text_form_roundtrips")
+            except Exception:
+                pass
         return out
     dyn = G.is_dynamic(lay)
     try:
